@@ -251,7 +251,26 @@ impl<'a, 'b> Packer<'a, 'b> {
                     }
                 }
                 if let Some(v) = sd_value {
-                    out.insert("_sd".into(), v);
+                    // position of `_sd` among the members: last (as the library's issuer writes
+                    // it), first, or somewhere in between — a processor walks members in order
+                    let n = out.len();
+                    let at = match self.ch.pick(5) {
+                        0 => 0,
+                        1 => self.ch.pick(n + 1),
+                        _ => n,
+                    };
+                    if at >= n {
+                        out.insert("_sd".into(), v);
+                    } else {
+                        let mut m = Map::new();
+                        for (i, (k, val)) in out.into_iter().enumerate() {
+                            if i == at {
+                                m.insert("_sd".into(), v.clone());
+                            }
+                            m.insert(k, val);
+                        }
+                        out = m;
+                    }
                 }
                 Value::Object(out)
             }
